@@ -1896,15 +1896,20 @@ class Affine:
 
         qmat = np.array(qmat, dtype=float)
         qmat = (qmat + qmat.T) / 2
-        eighvals = eigh(qmat, eigvals_only=True).round(6)
-        if all(eighvals >= 0):
+        eighvals, eighvecs = eigh(qmat)
+        # the tolerance is relative to the scale of the matrix
+        tol = 1e-6 * abs(eighvals).max() if eighvals.size else 0.0
+        if all(eighvals >= -tol):
             sign = 1
-        elif all(eighvals <= 0):
+        elif all(eighvals <= tol):
             sign = -1
         else:
             raise ValueError('The input matrix must be semidefinite.')
 
-        sqrt_mat = np.real(sqrtm(sign*qmat))
+        # symmetric square root from the eigen-decomposition: sqrtm() returns
+        # inf/nan or inaccurate entries for singular matrices
+        roots = np.sqrt(np.maximum(sign*eighvals, 0))
+        sqrt_mat = (eighvecs * roots) @ eighvecs.T
         affine = sqrt_mat @ self.reshape(self.size)
 
         if sign == 1:
